@@ -7,6 +7,11 @@ C42  Lint results do not depend on parallelism or completion order.
      arguments to the same file list (each file exactly once per branch).
  R3  every submitted future is joined inside the work-queue context, and the
      final ``reporter.output()`` runs after the fan-in.
+ R5  the per-file work (``Linter.check`` / ``Linter.fix`` / ``check_and_fix_file``)
+     does not mutate the linter's persistent state: no store to ``self.<attr>``
+     and no mutating operation on an alias of ``self.config`` (in serial mode one
+     Linter sees every file, in parallel mode each task has a fresh copy, so any
+     accumulated state makes the result depend on the worker count / order).
  R4  report handlers are stateless in ``handle`` (the per-file result does not
      depend on which files were handled before in the same process) and the
      reporter stores one result per handler per file report.
@@ -160,7 +165,86 @@ def run(ctx):
     ok = 'manager.dict()' in src and 'manager.list(reports)' in src and 'self.handlers_reports = parallel_reports' in src
     (ctx.judge('R4', 'init_parallel keeps existing reports in shared lists') if ok else
      ctx.violation('R4', 'Reporter.init_parallel', ip.where, 'init_parallel does not move every handler list into manager containers'))
+    # ---- R5
+    ctx.rule('R5', 'Linter.check / Linter.fix do not store to self.<attr> and do not mutate any alias of self.config; '
+                   'check_and_fix_file passes no per-file overwrite_config')
+    L = m.get_class(LN, 'Linter')
+    MUT = {'pop', 'popitem', 'clear', 'update', 'setdefault', 'append', 'extend', 'remove', 'insert', 'add', 'discard', 'sort', 'reverse',
+           '__setitem__', '__delitem__'}
+    # idempotent caller-supplied override (same argument -> same state); check_and_fix_file must not pass it (checked below)
+    R5_EXEMPT = {'config.update(overwrite_config)': 'explicit caller-supplied override, guarded by `if overwrite_config`; '
+                                                    'not passed by the per-file driver'}
+    n5 = 0
+    for meth in ('check', 'fix'):
+        f = L.function(meth)
+        if f is None:
+            raise AnalysisError(f'Linter.{meth} vanished')
+        alias = set()
+        changed = True
+        def is_alias(e):
+            if isinstance(e, ast.Attribute) and ast.unparse(e).startswith('self.config'):
+                return True
+            if isinstance(e, ast.Name):
+                return e.id in alias
+            if isinstance(e, ast.Subscript):
+                return is_alias(e.value)
+            if isinstance(e, ast.Call) and isinstance(e.func, ast.Attribute) and e.func.attr in ('get', 'setdefault', 'pop'):
+                return is_alias(e.func.value)
+            if isinstance(e, ast.IfExp):
+                return is_alias(e.body) or is_alias(e.orelse)
+            if isinstance(e, ast.BoolOp):
+                return any(is_alias(v) for v in e.values)
+            return False
+        while changed:
+            changed = False
+            for n in ast.walk(f.node):
+                pairs = []
+                if isinstance(n, ast.Assign):
+                    pairs = [(t, n.value) for t in n.targets]
+                elif isinstance(n, ast.NamedExpr):
+                    pairs = [(n.target, n.value)]
+                elif isinstance(n, (ast.For, ast.comprehension)):
+                    it = n.iter
+                    if isinstance(it, ast.Call) and isinstance(it.func, ast.Attribute) and it.func.attr in ('items', 'values'):
+                        it = it.func.value
+                    if is_alias(it):
+                        for t in ast.walk(n.target):
+                            if isinstance(t, ast.Name) and t.id not in alias:
+                                alias.add(t.id); changed = True
+                for t, v in pairs:
+                    if isinstance(t, ast.Name) and t.id not in alias and is_alias(v):
+                        alias.add(t.id); changed = True
+        bad = []
+        for n in ast.walk(f.node):
+            if isinstance(n, (ast.Assign, ast.AugAssign, ast.Delete)):
+                tg = n.targets if not isinstance(n, ast.AugAssign) else [n.target]
+                for t in tg:
+                    if isinstance(t, ast.Attribute) and isinstance(t.value, ast.Name) and t.value.id == 'self':
+                        bad.append((n, f'stores to {ast.unparse(t)}'))
+                    elif isinstance(t, ast.Subscript) and is_alias(t.value):
+                        bad.append((n, f'writes/deletes an entry of the persistent config ({ast.unparse(t)})'))
+                    elif isinstance(n, ast.AugAssign) and is_alias(t):
+                        bad.append((n, f'augments the persistent config object {ast.unparse(t)}'))
+            elif isinstance(n, ast.Call) and isinstance(n.func, ast.Attribute) and n.func.attr in MUT and is_alias(n.func.value):
+                if ast.unparse(n) in R5_EXEMPT:
+                    ctx.judge('R5', f'Linter.{meth}:{ast.unparse(n)}', nontrivial=False, facts={'exempt': R5_EXEMPT[ast.unparse(n)]})
+                    continue
+                bad.append((n, f'calls the mutating `{ast.unparse(n)[:70]}` on an alias of self.config'))
+        n5 += 1
+        if bad:
+            for n, why in bad:
+                ctx.violation('R5', f'Linter.{meth}:{ast.unparse(n)[:60]}', f'{f.module.relpath}:{n.lineno}',
+                              f'Linter.{meth} {why}: one Linter object handles every file in serial mode but each parallel task '
+                              f'works on a fresh copy, so what is reported for a file depends on the worker count and on the files '
+                              f'handled before it', facts={'aliases_of_self_config': sorted(alias)})
+        else:
+            ctx.judge('R5', f'Linter.{meth} leaves self / self.config unchanged', facts={'aliases_of_self_config': sorted(alias)})
     cf = m.get_function(LN, 'check_and_fix_file')
+    passes = [ast.unparse(c) for c in ast.walk(cf.node) if isinstance(c, ast.Call) and (X.dotted_attr(c.func) or '') in ('linter.check', 'linter.fix')
+              and any(k.arg in ('overwrite_config', 'overwrite_rules', None) for k in c.keywords)]
+    (ctx.judge('R5', 'check_and_fix_file passes no override') if not passes else
+     ctx.violation('R5', 'check_and_fix_file:override', cf.where, f'{passes[0]} installs a per-file configuration override in the shared linter'))
+    ctx.floor('R5', 'per-file Linter methods analysed', n5, 2)
     src = ast.unparse(cf.node)
     ok = 'Sourcefile.from_file(path)' in src and 'linter.check(source)' in src
     (ctx.judge('R2', 'check_and_fix_file checks the given path') if ok else
@@ -179,6 +263,11 @@ MUTANTS = [
            expect=('R3', 'join')),
     Mutant('handler-accumulates', RP, "    def handle(self, file_report):\n", "    def handle(self, file_report):\n        self.seen = getattr(self, 'seen', 0) + 1\n",
            count=3, expect=('R4', 'handle:state')),
+    Mutant('disable-entry-consumed', LN, "            disable_file = disable_config[disable_file_key]\n", "            disable_file = disable_config.pop(disable_file_key)\n",
+           expect=('R5', 'Linter.check'), quick=True),
+    Mutant('check-counts-files', LN, "        # Store the file report\n        self.reporter.add_file_report(file_report)\n",
+           "        self.checked = getattr(self, 'checked', 0) + 1\n        self.reporter.add_file_report(file_report)\n", expect=('R5', 'Linter.check')),
+    Mutant('neutral-local-copy', LN, "        disabled_rules = CaseInsensitiveDict()\n", "        disabled_rules = CaseInsensitiveDict()\n        disabled_rules.update({})\n", expect=None),
     Mutant('output-before', LN, "    linter = Linter(reporter=Reporter(handlers), rules=rules, config=config)\n",
            "    linter = Linter(reporter=Reporter(handlers), rules=rules, config=config)\n    linter.reporter.output()\n", expect=('R3', 'output-order')),
 ]
